@@ -265,3 +265,13 @@ func vh_C02_calls() {
 	vDiff(env, vProg_calls(env), "calls")
 	vReach("calls")
 }
+
+// vh_C02_recursion: self-recursive functions with the recursive call in
+// every kind of position (see vProgRecursion): value, error-ness and effect
+// order against the reference evaluator.
+func vh_C02_recursion() {
+	vFormatOpaque(true)
+	env := vEvalEnv(0)
+	vDiff(env, vProgRecursion(env), "recursion")
+	vReach("recursion")
+}
